@@ -213,4 +213,15 @@ CHECKS = {
              "Known finding: SLOAD builds its result outside the value builder.",
         technique="TLA+ size invariants; TLC trace validation of measured value trees",
         ref="DESIGN.md §4 C18"),
+    "C20": dict(
+        category="exploration",
+        text="LayoutJson.tla describes the wire shape (index = 0x + 64 lower-case hex digits of the 32 index bytes, fields "
+             "index/offset/type, snake_case variant tags and field names, recursively); LayoutGen (TLC) enumerates every "
+             "AbiType tree of depth <= 2 over all 17 variants (option fields none/8/256, array lengths up to 2^256-1, "
+             "conflicts with and without payloads); each is serialised with the crate's serde implementation and parsed "
+             "back, and LayoutJsonTrace.tla checks Inv_C20_RoundTrip, Inv_C20_IndexFormat (slot indices and array lengths) "
+             "and Inv_C20_WireShape on every entry, including random trees to depth 5 and the boundary set of indices.",
+        note="The specification is a format description and a generator; fidelity of serde_json itself is outside it.",
+        technique="TLA+ format specification; TLC-enumerated type trees replayed through serde; TLC trace validation of the JSON observed",
+        ref="DESIGN.md §4 C20"),
 }
